@@ -1,6 +1,6 @@
 """C01 — Theta update sketch is an exact hash-threshold sample (DESIGN.md 3 C01)."""
 from .. import core, gen
-from ..runner import Spec
+from ..runner import Spec, Part
 
 MAXT = 2**63 - 1
 
@@ -32,7 +32,7 @@ def parse_T(line):
 
 class C01(Spec):
     pid = "C01"
-    props_modules = ["DSProofs.Props.C01"]
+    props_modules = ["DSProofs.Props.C01", "DSProofs.Props.C01_Table"]
     harness = "theta_h"
     model_exe = "dsmodel_theta"
     family = "theta"
@@ -44,7 +44,7 @@ class C01(Spec):
     trusted_base = ["Lean 4.33 kernel", "axioms: propext, Quot.sound, Classical.choice",
                     "DSModel/Murmur3.lean is the published MurmurHash3_x64_128 (hand transcription, tied to the code by hash correspondence)",
                     "correspondence harness harness/theta_h.cpp + generators (sampled histories; public-API observations)",
-                    "L1 model abstracts the open-addressing table to a sorted association list (probe order unobservable)"]
+                    "L1 abstracts the table to a sorted association list; L2 models the open-addressing table with a proved refinement (advisory slot-order tie)"]
     assumptions = ["theorems are about DSModel/Theta/Update.lean; the tie to theta_update_sketch_base_impl.hpp is differential (sampled)",
                    "63-bit hash value 0 is dropped by design (reserved empty-slot marker)"]
 
@@ -234,7 +234,70 @@ class C01(Spec):
         return tuple(tuple(w[2:6]) for w in news) + tuple((k, v["theta"], v["n"]) for k, v in sorted(lastobs.items()))
 
 
-SPEC = C01()
+class C01L2(Part):
+    """L2 tie: the concrete open-addressing table model against the real table's own slot (= iteration) order.
+    Until the first rebuild of a sketch the order is fully determined (stride probing, resize re-insertion order);
+    after a rebuild std::nth_element's output order is unspecified, so only the set is compared."""
+    name = "l2table"
+    advisory = True
+    harness = "theta_h"
+    harness_args = ("raw",)
+    model_exe = "dsmodel_theta"
+    family = "thetaL2"
+
+    def generate(self, rng, tier):
+        hs = []
+        for _ in range(40 if tier == "quick" else 400):
+            lgk = rng.choice([5, 5, 6, 7] if tier == "quick" else [5, 6, 7, 8, 9])
+            h = ["new 0 %d %d %s %d" % (lgk, rng.randrange(4), rng.choice(["3f800000", "3f800000", "3f000000"]),
+                                        9001 if rng.random() < 0.7 else rng.randrange(1, 2**40))]
+            universe = rng.choice([50, 500, 5000])
+            for _j in range(rng.choice([30, 100, 300] if tier == "quick" else [100, 600, 3000])):
+                r = rng.random()
+                if r < 0.97:
+                    h.append("upd 0 u64 %d" % rng.randrange(universe))
+                elif r < 0.985:
+                    h.append("trim 0")
+                else:
+                    h.append("reset 0")
+            hs.append(h)
+        return hs
+
+    def diff(self, hist, impl_out, model_out):
+        n = max(len(impl_out), len(model_out))
+        for i in range(n):
+            a = impl_out[i].split() if i < len(impl_out) else ["<missing>"]
+            b = model_out[i].split() if i < len(model_out) else ["<missing>"]
+            if a[0] != "W" or b[0] != "W":
+                if a != b:
+                    return i
+                continue
+            if a[1:4] != b[1:4]:
+                return i
+            ka, kb = a[5:], b[5:]
+            if b[4] == "R":
+                if ka != kb:
+                    return i
+            elif sorted(ka, key=int) != sorted(kb, key=int):
+                return i
+        return None
+
+    def nontrivial_key(self, hist, impl_out):
+        if not impl_out:
+            return None
+        last = impl_out[-1].split()
+        if len(last) > 3 and last[0] == "W" and int(last[3]) >= 20:
+            return (hist[0], last[1], last[3])
+        return None
+
+
+class C01Spec(C01):
+    def parts(self):
+        return [self, L2PART]
+
+
+L2PART = C01L2()
+SPEC = C01Spec()
 
 CLAIM = dict(
     text=("Kernel-checked theorems over ALL operation histories and configurations of an executable Lean model of the update theta "
@@ -242,7 +305,9 @@ CLAIM = dict(
           "theta<start => >=k entries, exact while the stream fits, trim<=k, compact exposes the same content), plus a differential tie "
           "of that model and of the Lean MurmurHash3/canonicalisation to the real headers on generated histories, plus the property "
           "oracle on every implementation trace."),
-    note=("Modelled, not verified: the open-addressing table layout (abstracted to a sorted association list; L1). "
-          "Hash value 0 is dropped by design and excluded from the statement."),
+    note=("Two layers: L1 abstracts the table to a key-sorted association list; L2 (DSModel/Theta/Table.lean) models the open-addressing "
+          "table itself (odd-stride probing, insert, resize, rebuild) with a kernel-checked refinement to L1 for whole histories "
+          "(C01_table_run_refines), tied to the real table's slot order by the advisory part `l2table`. Unspecified and not modelled: the "
+          "order std::nth_element leaves (the refinement does not depend on it). Hash value 0 is dropped by design."),
     technique="Lean 4 invariant proof by induction over operation lists + differential correspondence (model vs real headers) + trace oracle",
     design="DESIGN.md §3 C01")
